@@ -120,6 +120,19 @@ def static_classes(prog):
         if isinstance(n, ast.Try) and n.finalbody:
             if _own(n.finalbody, (ast.Raise,)) and _own(n.body + n.handlers + n.orelse, (ast.Return, ast.Break, ast.Continue)):
                 cls['raise_in_finally_over_jump'] = True
+    # (16) nonlocal/global declared inside a nested block of a (nested) function rather than at its top level: the
+    #      parallel-block scope handling of activity analysis loses/misplaces the declaration
+    for n in ast.walk(fn):
+        if isinstance(n, (ast.FunctionDef, ast.Lambda)):
+            top = set(id(st) for st in getattr(n, 'body', []) if isinstance(st, (ast.Nonlocal, ast.Global))) if isinstance(n, ast.FunctionDef) else set()
+            stack = list(getattr(n, 'body', [])) if isinstance(n, ast.FunctionDef) else []
+            while stack:
+                x = stack.pop()
+                if isinstance(x, (ast.FunctionDef, ast.Lambda, ast.ClassDef)):
+                    continue
+                if isinstance(x, (ast.Nonlocal, ast.Global)) and id(x) not in top:
+                    cls['nonlocal_or_global_declared_in_nested_block'] = True
+                stack.extend(ast.iter_child_nodes(x))
     # (15) `del x` of a plain name is rewritten to `x = ag__.Undefined('x')` (variables.visit_Delete): deleting an
     #      UNBOUND name no longer raises at the del statement
     if any(isinstance(n, ast.Delete) and any(isinstance(t, ast.Name) for t in n.targets) for n in ast.walk(fn)):
@@ -195,9 +208,9 @@ def classify(prog, mod, args, dec, static, orig_outcome=None, raised_at_del=Fals
         return 'local_first_bound_by_closure_call'
     if 'nested_fn_param_leaks_into_enclosing_bound' in static:
         return 'nested_fn_param_leaks_into_enclosing_bound'
-    if 'del_of_unbound_name_does_not_raise' in static and orig_outcome == ('exc', 'NameError') and raised_at_del:
+    if 'del_of_unbound_name_does_not_raise' in static and orig_outcome[:2] == ('exc', 'NameError') and raised_at_del:
         return 'del_of_unbound_name_does_not_raise'
-    for k in ('read_in_class_body', 'namedexpr_in_call_argument', 'call_in_return_annotation_of_nested_def', 'lambda_in_decorator_of_nested_def',
+    for k in ('nonlocal_or_global_declared_in_nested_block', 'read_in_class_body', 'namedexpr_in_call_argument', 'call_in_return_annotation_of_nested_def', 'lambda_in_decorator_of_nested_def',
               'docstring_only_function_body',
               'raise_in_finally_over_jump', 'except_handler_binds_name', 'try_else_block_starts_with_if', 'chained_comparison_effectful_middle_operand'):
         if k in static:
@@ -215,6 +228,7 @@ def run_once(mod, fn, args, dec):
 
 def run_observe(mod, fn, args, dec):
     """(outcome, log, G, final state of list arguments)"""
+    run_observe.last_exc = None
     mod.LOG[:] = []
     mod.DEC[:] = list(dec)
     mod.G = 0
@@ -225,6 +239,7 @@ def run_observe(mod, fn, args, dec):
     except RecursionError:
         raise
     except BaseException as e:  # noqa
+        run_observe.last_exc = e
         out = ('exc', 'NameError' if isinstance(e, NameError) else type(e).__name__)
         # where (in the program's own file) was it raised?  used only by class predicates on the ORIGINAL run
         tb, line = e.__traceback__, None
@@ -234,7 +249,23 @@ def run_observe(mod, fn, args, dec):
             tb = tb.tb_next
         run_observe.last_raise_line = line
     lists = [mod._freeze(x) for x in a if isinstance(x, list)]
-    return out, list(mod.LOG), mod.G, lists
+    log = list(mod.LOG)
+    if out[0] == 'exc':
+        # the property compares, when an exception escapes, only its type and the effects UP TO the raise (effects of
+        # finally blocks / context-manager exits that run while it propagates are exempt).  Explicit raises in generated
+        # programs are `raise E(tr(slot))`: the raise point is right after the last ('tr', slot) event.
+        cut = None
+        exc = run_observe.last_exc
+        if out[1] in ('E1', 'E2') and exc is not None and exc.args:
+            slot = exc.args[0]
+            for i in range(len(log) - 1, -1, -1):
+                if log[i][:2] == ('tr', slot):
+                    cut = i + 1
+                    break
+        if cut is not None:
+            return ('exc', out[1], 'explicit'), log[:cut], None, None
+        return ('exc', out[1], 'implicit'), log, None, None
+    return out, log, mod.G, lists
 
 
 CONFIGS = None
@@ -307,6 +338,7 @@ def worker(spec):
             refs, ref_raise_lines = [], []
             for (a, d) in runs:
                 run_observe.last_raise_line = None
+                run_observe.last_exc = None
                 refs.append(run_observe(mod, mod.f, a, d))
                 ref_raise_lines.append(run_observe.last_raise_line)
             src_lines = p.source.split('\n')
@@ -337,8 +369,15 @@ def worker(spec):
                         if len(r0[1]) > 1:
                             res['nontrivial'] += 1
                         same = (r0 == r1)
+                        if not same and r0[0][0] == 'exc' and r1[0][0] == 'exc' and r0[0][1] == r1[0][1] \
+                                and 'implicit' in (r0[0][2], r1[0][2]):
+                            # implicit exception (NameError/TypeError/...): raise point unknown -> effects up to the raise
+                            # agree iff one log is a prefix of the other
+                            la, lb = r0[1], r1[1]
+                            k = min(len(la), len(lb))
+                            same = la[:k] == lb[:k]
                         if not same and vname == 'convert' and r0[0][0] == 'exc' and r1[0][0] == 'exc' \
-                                and r0[1:] == r1[1:] and r0[0][1] not in ('E1', 'E2', 'NameError'):
+                                and r0[0][1] not in ('E1', 'E2', 'NameError'):
                             same = True      # malt.convert may re-create builtin exception types (C12's rule), not C01's subject
                         if not same:
                             what = 'original and converted differ'
